@@ -274,7 +274,6 @@ def ly1_prealloc(m, run, fi, arrays=None, rule='LY1.prealloc-stride'):
         if isinstance(sub.slice, (ast.Slice,)):
             continue
         fv = alloc[sub.value.id]
-        fvp = to_poly(fv) if not isinstance(fv, Poly) else fv
         atom_nodes = {}
 
         def atom_of(e, _an=atom_nodes):
@@ -282,6 +281,7 @@ def ly1_prealloc(m, run, fi, arrays=None, rule='LY1.prealloc-stride'):
             _an.setdefault(t, e)
             return t
         try:
+            fvp = to_poly(fv, env=R.env(sub), atom_of=atom_of) if not isinstance(fv, Poly) else fv
             p = to_poly(sub.slice, env=R.env(sub), atom_of=atom_of)
         except NotPoly:
             continue
